@@ -821,3 +821,12 @@ Lemma demo_block_event :
   /\ block_data demo_block = [[120]; [121]] /\ block_event None demo_block = Some [101]
   /\ snd (fold_lines cls0 (None, []) (demo_block ++ [[]])) = [parse_event cls0 (Some [101]) [120; 10; 121]].
 Proof. vm_compute. repeat split. Qed.
+
+(* ================= lossless on valid UTF-8: the byte layer is the identity ================= *)
+Theorem valid_utf8_body cl off text cs :
+  forallb is_scalar text = true -> concat cs = encode text ->
+  frames_of cl FIXED off cs = frames_from off (upto_done (events_spec cl text)).
+Proof.
+  intros Hs Hc. rewrite frames_of_whole, Hc. unfold frames_whole, lossy_text.
+  fold (lossyF (encode text)). rewrite (lossy_encode text Hs). reflexivity.
+Qed.
